@@ -1247,9 +1247,13 @@ impl<const MIN_ALIGN: usize> Bump<MIN_ALIGN> {
                         // only allocation in this chunk.
                         //
                         // Because this is the only allocation in this chunk,
-                        // we can reset the chunk's bump finger to the start of
-                        // the chunk.
-                        current_ptr.set(current_footer_p.as_ref().data);
+                        // we can reset the chunk's bump finger to where it was
+                        // when the chunk was created: its end (we bump
+                        // downwards), rounded down to the minimum alignment.
+                        current_ptr.set(NonNull::new_unchecked(round_mut_ptr_down_to(
+                            current_footer_p.cast::<u8>().as_ptr(),
+                            MIN_ALIGN,
+                        )));
                         #[cfg(bumpalo_verif)]
                         verif_hooks::on_store(current_footer_p.as_ptr() as usize);
                     }
@@ -1359,9 +1363,13 @@ impl<const MIN_ALIGN: usize> Bump<MIN_ALIGN> {
                         // only allocation in this chunk.
                         //
                         // Because this is the only allocation in this chunk,
-                        // we can reset the chunk's bump finger to the start of
-                        // the chunk.
-                        current_ptr.set(current_footer_p.as_ref().data);
+                        // we can reset the chunk's bump finger to where it was
+                        // when the chunk was created: its end (we bump
+                        // downwards), rounded down to the minimum alignment.
+                        current_ptr.set(NonNull::new_unchecked(round_mut_ptr_down_to(
+                            current_footer_p.cast::<u8>().as_ptr(),
+                            MIN_ALIGN,
+                        )));
                         #[cfg(bumpalo_verif)]
                         verif_hooks::on_store(current_footer_p.as_ptr() as usize);
                     }
